@@ -2,5 +2,5 @@
 From MF Require Import Lib.Base Lib.Codec Model.ObsParser.
 Require Import ExtrOcamlBasic.
 Definition dispatch (fn : Z) (t : toks) : toks :=
-  if Z.eqb fn 1 then obs_parse t else bad_input.
+  if Z.eqb fn 1 then obs_parse t else if Z.eqb fn 2 then obs_loads t else bad_input.
 Extraction "../ocaml/parser/model.ml" dispatch.
